@@ -120,6 +120,12 @@ Level2 ==
 \cup { TArray(t, 2) : t \in SmallLevel1 } \cup { TTuple(<<t, U8>>) : t \in SmallLevel1 }
 \cup { TSet(TSeq(U8, "vec")), TResult(TSeq(U8, "vec"), TStr) }
 
+\* nesting depth three on a few spines
+SmallLevel2 == { TSeq(TSeq(U8, "vec"), "vec"), TOption(TPtr(U16, "box")), TMap(U8, TSeq(TBool, "vec")), TPtr(TOption(U8), "box"),
+                 TTuple(<<TSeq(U8, "vec"), U8>>), TSeq(TStr, "vec") }
+Level3 == { TOption(t) : t \in SmallLevel2 } \cup { TSeq(t, "vec") : t \in SmallLevel2 } \cup { TPtr(t, "rc") : t \in SmallLevel2 }
+          \cup { TTuple(<<U8, t>>) : t \in SmallLevel2 } \cup { TResult(t, TBool) : t \in SmallLevel2 }
+
 \* recursive definitions
 ERec == [nil |-> TUnit,
          RV |-> TTuple(<<TSeq(TNamed("RV"), "vec")>>),
